@@ -359,6 +359,7 @@ def _replay(mod, r, f, workdir, seed):
     try:
         return mod.replay(r["params"], f["model"], f["notes"], d, seed)
     except Exception as ex:  # noqa: BLE001
+        sys.stderr.write("replay crashed for %s: %s: %s\n%s\n" % (r["label"], type(ex).__name__, ex, traceback.format_exc()[-600:]))
         return ["replay crashed: %s: %s" % (type(ex).__name__, ex)] if getattr(mod, "REPLAY_CRASH_IS_FAILURE", False) else []
     finally:
         shutil.rmtree(d, ignore_errors=True)
